@@ -1,15 +1,15 @@
 \* WsImpl with Sync = TRUE (the environment moves only in quiescent states, the system reacts in one
-\* canonical order) as the pinned tree behaves: run with -workers 1; the invariant EmitHist prints,
+\* canonical order) as the tree behaves (all repairs in): run with -workers 1; the invariant EmitHist prints,
 \* for every quiescent state, the environment decisions leading to it with the observation predicted
 \* before each and after the last.  The driver turns the maximal ones into replay scripts.
 \* Template: the driver overrides protocol / alphabet / bounds per replay family (replayFamilies).
 INIT Init
 NEXT Next
 CONSTANTS
-  AllowDupStart = TRUE
+  AllowDupStart = FALSE
   AllowSilentInit = FALSE
-  AllowRestartRace = TRUE
-  AllowDoubleError = TRUE
+  AllowRestartRace = FALSE
+  AllowDoubleError = FALSE
   SInsts = {}
   SIds = {}
   SK = 0
@@ -32,10 +32,11 @@ CONSTANTS
   MaxMsgs = 3
   K = 1
   MaxTicks = 0
-  FixDup = FALSE
-  FixDel = FALSE
+  FixDup = TRUE
+  FixDel = TRUE
   FixInit = TRUE
   PreAcked = FALSE
+  Bursts = TRUE
   Sync = TRUE
 VIEW view
 INVARIANTS TypeOK WriteExclusion EmitHist
